@@ -132,7 +132,7 @@ def playback(row, timeout=1800):
     env = dict(os.environ, CARGO_NET_OFFLINE="true", CARGO_TARGET_DIR=os.path.join(row["crate"], "target"))
     cmd = ["cargo", "kani", "-Z", "function-contracts", "-Z", "stubbing", "-Z", "concrete-playback", "--concrete-playback=print", "--harness", h]
     try:
-        p = subprocess.run(cmd, cwd=row["crate"], capture_output=True, text=True, env=env, timeout=timeout)
+        p = C.run_group(cmd, cwd=row["crate"], env=env, timeout=timeout)
     except subprocess.TimeoutExpired:
         return []
     out = p.stdout
@@ -156,7 +156,7 @@ def native_replay(row, w, timeout=900):
     """build the harness crate natively (real macro from the snapshot, real lexgen_util) and run the witness"""
     import subprocess
     env = dict(os.environ, CARGO_NET_OFFLINE="true", CARGO_TARGET_DIR=os.path.join(row["crate"], "target_native"))
-    b = subprocess.run(["cargo", "build", "--offline", "-q"], cwd=row["crate"], capture_output=True, text=True, env=env, timeout=timeout)
+    b = C.run_group(["cargo", "build", "--offline", "-q"], cwd=row["crate"], env=env, timeout=timeout)
     if b.returncode != 0:
         return "native build failed:\n" + b.stderr[-2000:]
     import re
